@@ -369,23 +369,28 @@ def catOk (category rtype : Nat) : Bool :=
   else if category = 2 then rtype = 4
   else false
 
+/-- the amount-type switch of `CreateCampaignPayload.Validate` -/
+def amtSwitch (amtType : Nat) (ra : AmtP) : Option Err :=
+  if amtType = 1 then
+    if posD ra.mainPct || posD ra.subPct then some .validate
+    else if !posI ra.main && !posI ra.sub then some .validate
+    else none
+  else if amtType = 3 then
+    if posI ra.main || posI ra.sub then some .validate
+    else if !posD ra.mainPct && !posD ra.subPct then some .validate
+    else none
+  else some .validate
+
+/-- some component of the reward amount is negative -/
+def anyNeg (ra : AmtP) : Bool := negI ra.main || negI ra.sub || negD ra.mainPct || negD ra.subPct
+
 /-- the amount-type switch and the unlock-period rule of `CreateCampaignPayload.Validate`;
     with `fixed` also the added rule "no negative component" -/
 def validateAmounts (fixed : Bool) (amtType : Nat) (ra : AmtP) : Option Err :=
-  let sw : Option Err :=
-    if amtType = 1 then
-      if posD ra.mainPct || posD ra.subPct then some .validate
-      else if !posI ra.main && !posI ra.sub then some .validate
-      else none
-    else if amtType = 3 then
-      if posI ra.main || posI ra.sub then some .validate
-      else if !posD ra.mainPct && !posD ra.subPct then some .validate
-      else none
-    else some .validate
-  match sw with
+  match amtSwitch amtType ra with
   | some e => some e
   | none =>
-    if fixed && (negI ra.main || negI ra.sub || negD ra.mainPct || negD ra.subPct) then some .validate
+    if fixed && anyNeg ra then some .validate
     else if (posI ra.sub || posD ra.subPct) && ra.unlock = 0 then some .validate
     else none
 
